@@ -193,6 +193,14 @@ func deepClone(rv reflect.Value) reflect.Value {
 		}
 		return newMap
 
+	case reflect.Interface:
+		if rv.IsNil() {
+			return rv
+		}
+		newIface := reflect.New(rv.Type()).Elem()
+		newIface.Set(deepClone(rv.Elem()))
+		return newIface
+
 	default:
 		return rv
 	}
